@@ -248,7 +248,13 @@ def cfg_for_spec(eff):
 
 def static_record(rid, req, resp, with_pos=True):
     """trace record for TraceStatic.tla from one driver response (needs in_ast, out_ast, effective_config)"""
-    rec = {"rid": rid, "outcome": resp.get("outcome", "abort"), "error": str(resp.get("error") or "")}
+    rec = {"rid": rid, "outcome": resp.get("outcome", "abort"), "error": str(resp.get("error") or ""), "refused": False}
+    if rec["outcome"] == "err" and resp.get("in_ast") is not None and "effective_config" in resp:
+        # a refused rewrite of a parsable input: the design model has to predict the refusal
+        eff = resp["effective_config"]
+        rec["refused"] = True
+        rec["cfg"] = cfg_for_spec(eff)
+        rec["in"] = norm.encode(norm.normalise(resp["in_ast"], "__datadog_%s_" % eff["localVarPrefix"], None))
     if rec["outcome"] != "ok":
         return rec
     if "in_ast" not in resp:
